@@ -774,8 +774,12 @@ class Gen:
             if r3.random() < self.cfg.get("p_prelude_op_name", 0.12):
                 # operations named like prelude / reserved type names (Default, Option, ...): envelope and method names derive from it
                 word = r3.choice(["default", "option", "string", "vec", "rc", "result", "box", "self", ("c", "to", "f"), ("e", "mail"),
-                                  ("x", "coordinate"), ("get", "a", "b")])
-                if isinstance(word, tuple):
+                                  ("x", "coordinate"), ("get", "a", "b"), Name(("http", "ping"), "pascal", "HTTPPing"),
+                                  Name(("xml", "export"), "pascal", "XMLExport"), Name(("get", "v2", "data"), "snake")])
+                if isinstance(word, Name):
+                    # leading acronyms and digits: snake_case(PascalCase(name)) is not snake_case(name)
+                    cand = word
+                elif isinstance(word, tuple):
                     # single-letter words: case conversion is not idempotent for them (c_to_f -> CToF -> Ctof)
                     cand = Name(word, r3.choice(["snake", "kebab", "dotted"]))
                 else:
